@@ -366,11 +366,9 @@ class World:
         if kind == 'list_of_numpy':
             if 'bad' in payload:
                 a = np.frombuffer(canon_json({k: v for k, v in payload.items() if k != 'bad'}), dtype=np.uint8).copy()
-                h = len(a) // 2
-                return [a[:h], a[h:], a[:3], _Unsaveable()]  # a LONGER list whose last element numpy cannot save
+                return list(np.array_split(a, LON_PARTS)) + [a[:3], _Unsaveable()]  # a LONGER list whose last element numpy cannot save
             a = np.frombuffer(raw, dtype=np.uint8).copy()
-            h = len(a) // 2
-            return [a[:h], a[h:]]
+            return list(np.array_split(a, LON_PARTS))   # more than ten arrays: 0.npy .. 11.npy come back in numeric order only
         if kind in ('dir', 'continues', 'dirlink'):
             data = task.get_data_object()
             d = data.dir
@@ -450,7 +448,7 @@ class World:
                 raise ValueError(f'generated payload incomplete: {items!r}')
             p = {'term': items[0][1], 'gen': items[1][1]}
         elif kind == 'list_of_numpy':
-            if not (isinstance(value, list) and len(value) == 2):
+            if not (isinstance(value, list) and len(value) == LON_PARTS):
                 raise ValueError(f'list_of_numpy payload incomplete: {len(value) if isinstance(value, list) else value!r} parts')
             p = json.loads(np.concatenate(value).tobytes().decode('utf-8'))
         elif kind in ('dir', 'continues', 'dirlink'):
@@ -738,6 +736,9 @@ def _dump(payload, path):
     if str(path).endswith('.yaml'):
         return yaml.safe_dump(payload, sort_keys=False)
     return json.dumps(payload, indent=1)
+
+
+LON_PARTS = 12
 
 
 def rich_pad(gen):
